@@ -1,6 +1,7 @@
 import Spake2Verif.Proofs.PropAuxB4
 import Spake2Verif.Spec.Primes
 import Spake2Verif.Spec.EdConsts
+import Spake2Verif.Proofs.EdShapeTie
 /-!
 # C12 — Ed25519 point addition and doubling compute the Edwards group law
 
@@ -225,5 +226,14 @@ example (p : ℤ × ℤ × ℤ × ℤ) (P : Point C25519) (r : Rep C25519 p P) :
   have := (dedicated_add_Z_ne_zero_iff_ed25519 p p P P r r).1 h
   rw [sub_self] at this
   exact this.1 rfl
+
+/-! ### Tie A for the element API above the ladders -/
+
+/-- which ladder `scalarmult` runs, on which scalar (`s % L` for `Element`, `s ≥ 0` unreduced for
+`ElementOfUnknownGroup`, none for `Zero`), is the translation `Gen/EdShape.lean` of the current source, for every curve -/
+theorem scalarmult_dispatch_is_translated (c : Curve) (a : EdElem) (s : ℤ) :
+    (Ed25519.smul c a s).map EdShapeTie.toS =
+      EdShape.smul c.Q c.L c.d (Ed25519.zeroPt c) (EdShapeTie.toS a) s :=
+  EdShapeTie.smul_tie c a s
 
 end Spake2Verif.C12
